@@ -1,16 +1,28 @@
 (** * C02 — Tasks run at most once and only after their dependencies succeeded  (PARTIAL)
 
-    Proved here, as decision rules of the scheduler model that the correspondence run ties to taskctl/scheduler.go:
-    a stage goroutine is created only by a visit, only for a stage that is still waiting, and only when every
-    dependency is done/skipped (or errored while marked allow_failure); a dependent of a failed or canceled stage is
-    never ready; a job whose graph cannot be built (cycle, reserved variable) gets no scheduler, is reported canceled
-    with the error and does not stop the wait list from being processed.
-    NOT yet proved as theorems over whole histories (decided by the monitor on every executed history instead):
-    at-most-once over a history, "successful ⇒ every task ran exactly once", acyclic ⇒ completes; and, for the pure
-    functions, that the Kahn order is topological / that graph construction fails exactly on cyclic relations. *)
+    Proved over every reachable state / every history of the system model (all interleavings at the park points,
+    any surrounding history of other jobs, restarts included): no task of a job begins executing twice
+    (C02_at_most_once); whenever a task begins, every task it depends on is done or skipped, or failed while marked
+    allow_failure (C02_begins_after_dependencies). As decision rules: a stage goroutine is created only by a visit, only
+    for a stage that is still waiting and whose dependencies are satisfied; a dependent of a failed or canceled stage is
+    never ready; a job whose graph cannot be built gets no scheduler, is reported canceled with the error and does not
+    stop the wait list.
+    NOT proved (decided by the monitor on every executed history instead): "a job reported successful executed each
+    task exactly once", "every acyclic graph can run to completion" (liveness), and for the pure functions of Graph.v
+    that the Kahn order is topological / that graph construction fails exactly on cyclic relations. *)
 From stdpp Require Import list.
 From Coq Require Import ZArith.
-From PV Require Import System proofs.SchedProps.
+From PV Require Import System Runner proofs.SchedProps proofs.OnceProps proofs.StageProps.
+
+(** over every history: the number of times task [n] of job [id] began executing is at most one *)
+Theorem C02_at_most_once : ∀ s id n, reach s → (began (st_ghost s) id n ≤ 1)%nat.
+Proof. exact at_most_once. Qed.
+
+(** over every history: at the step in which a task begins executing, all its dependencies are satisfied *)
+Theorem C02_begins_after_dependencies : ∀ s id n s' r j sc,
+  reach s → step s (EvRunBegin id n) = Some (s', r) → get_job s id = Some j → j_sched j = Some sc →
+  forallb (dep_ok sc j) (task_deps j n) = true.
+Proof. exact begins_after_deps. Qed.
 
 Theorem C02_launch_only_when_deps_satisfied_partial : ∀ s id n s' j sc,
   do_visit s id n = Some s' → get_job s id = Some j → j_sched j = Some sc →
@@ -42,6 +54,8 @@ Proof. vm_compute. done. Qed.
 Example C02_ex_cycle3 : build_graph_ok (sort_tasks [(0%nat, td [2%nat]); (1%nat, td [0%nat]); (2%nat, td [1%nat]); (3%nat, td [])]) = false.
 Proof. vm_compute. done. Qed.
 
+Print Assumptions C02_at_most_once.
+Print Assumptions C02_begins_after_dependencies.
 Print Assumptions C02_launch_only_when_deps_satisfied_partial.
 Print Assumptions C02_failed_dependency_blocks.
 Print Assumptions C02_cyclic_job_harmless.
